@@ -326,7 +326,10 @@ def assemble(unit, repo):
                 text = "\n".join(bl[f[0]: t[0] + 1])
                 block = {"in": val["anchor"], "from": val["block_from"], "to": val.get("block_to") or ("(up to) " + val["block_until"] if val.get("block_until") else "(closing brace of the first block)"), "lines": t[0] - f[0] + 1}
                 a, b = off, off + len(text)
-                sig, body = val["block_sig"] + " ", "{\n" + text + "\n" + "\n".join([val.get("tail", "")] + val.get("tail_lines", [])) + "\n}"
+                # a block that ends inside nested braces (e.g. at a `break;`) is closed like a cut function
+                stripped_b = re.sub(r'"(\\.|[^"\\])*"|//[^\n]*', "", text)
+                bdepth = max(0, stripped_b.count("{") - stripped_b.count("}"))
+                sig, body = val["block_sig"] + " ", "{\n" + text + "\n" + "}" * bdepth + "\n" + "\n".join([val.get("tail", "")] + val.get("tail_lines", [])) + "\n}"
             real_sha = hashlib.sha256(srcs[sp][a:b].encode()).hexdigest()
             # (1) signature rewrite
             sig_s = sig.rstrip()
